@@ -156,11 +156,20 @@ fn check_sequence(idxs: &[usize], ctx: usize, sep: &str, obs: &mut Obs) {
     // individually parsed statements
     let mut expected: Vec<(String, String)> = Vec::new();
     let mut owner: Vec<usize> = Vec::new(); // which input statement each expected entry came from
+    let mut alone: std::collections::HashMap<usize, Vec<(String, String)>> = std::collections::HashMap::new();
     for (k, &i) in idxs.iter().enumerate() {
         let (_, text) = STATEMENTS[i];
+        if let Some(list) = alone.get(&i) {
+            for e in list {
+                expected.push(e.clone());
+                owner.push(k);
+            }
+            continue;
+        }
         let r = guard(|| parse_list(text, None));
         match r {
             Ok((0, Some(list))) => {
+                alone.insert(i, list.clone());
                 for e in list {
                     expected.push(e);
                     owner.push(k);
@@ -249,6 +258,54 @@ fn check_sequence(idxs: &[usize], ctx: usize, sep: &str, obs: &mut Obs) {
     }
 }
 
+/// Heads whose body is exactly one statement without braces.
+const SINGLE_BODY_HEADS: &[(&str, &str)] = &[("if-single-body", "if (c0) "), ("else-single-body", "if (c0) { } else "), ("while-single-body", "while (c0) "), ("for-single-body", "for int i0 in [0:1] ")];
+/// Statement kinds that the grammar allows as such a body without any doubt.
+const SINGLE_BODY_KINDS: &[&str] = &["gate-call", "gphase", "measure-", "reset", "barrier", "delay", "if-", "while", "for-", "switch", "break", "continue", "assign", "call-stmt", "end"];
+
+/// One statement as the brace-less body of an if / else / while / for: no diagnostics, and the body is
+/// the statement parsed alone (same kind, same text).
+fn check_single_body(i: usize, h: usize, obs: &mut Obs) {
+    let (kind, text) = STATEMENTS[i];
+    let (hname, head) = SINGLE_BODY_HEADS[h % SINGLE_BODY_HEADS.len()];
+    if !SINGLE_BODY_KINDS.iter().any(|k| kind.starts_with(k)) {
+        obs.done(false);
+        return;
+    }
+    let alone = match guard(|| parse_list(text, None)) {
+        Ok((0, Some(l))) if l.len() == 1 => l[0].clone(),
+        _ => {
+            obs.inconclusive(format!("precondition: statement `{kind}` does not parse cleanly on its own"));
+            return;
+        }
+    };
+    let src = format!("{head}{text}");
+    obs.fp.str(&src);
+    let r = guard(|| {
+        let p = SourceFile::parse(&src);
+        let nerr = p.errors().len();
+        let msgs: Vec<String> = p.errors().iter().map(|e| e.to_string()).collect();
+        let top: Vec<(String, String)> = p.tree().statements().map(|s| (format!("{:?}", s.syntax().kind()), norm(&s.syntax().text().to_string()))).collect();
+        // the body: a statement node below the outer statement with the kind and text of the statement alone
+        let found = p.syntax_node().descendants().skip(1).any(|n| format!("{:?}", n.kind()) == alone.0 && norm(&n.text().to_string()) == alone.1 && n.text_range().end() == p.syntax_node().text_range().end());
+        (nerr, msgs, top, found)
+    });
+    match r {
+        Err(p) => obs.violate(format!("{kind}/start/{hname}/panic/{}", p.site()), format!("{src:?}: {}:{} {}", p.file, p.line, p.msg)),
+        Ok((nerr, msgs, top, found)) => {
+            if nerr > 0 {
+                obs.violate(format!("{kind}/start/{hname}/diagnostic/next:end"), format!("{src:?}: {msgs:?} although the statement parses cleanly alone"));
+            } else if top.len() != 1 || top[0].1 != norm(&src) {
+                obs.violate(format!("{kind}/start/{hname}/count/next:end"), format!("{src:?}: top-level statements {top:?}"));
+            } else if !found {
+                obs.violate(format!("{kind}/start/{hname}/text/next:end"), format!("{src:?}: no body node {alone:?}"));
+            }
+        }
+    }
+    obs.class("single-statement-body");
+    obs.done(true);
+}
+
 fn clean_context(ctx: usize) -> bool {
     let (_, pre, post) = CONTEXTS[ctx];
     let src = format!("{pre}{post}");
@@ -281,6 +338,22 @@ impl Property for C16 {
                 format!("seq:{a},{b},{c}:{}:{}", i / t / t / t, i % 2)
             }),
         ];
+        // long runs of one statement kind followed by one statement of another kind: the length of a
+        // sequence is a dimension of "every sequence" too (counts around 256 and beyond)
+        {
+            let counts: &'static [u64] = if tier == Tier::Thorough { &[64, 255, 256, 257, 300, 1000, 4096] } else { &[255, 256, 257, 300, 1000] };
+            let tails = ["decl-bool", "gate-call", "if-single"];
+            let ctxs = [0u64, 3, 2];
+            let nk = counts.len() as u64;
+            v.push(Stream::new("long-runs-of-one-statement-kind", n * nk * 3 * 3, true, move |i| {
+                let k = i % n;
+                let c = counts[((i / n) % nk) as usize];
+                let t = tails[((i / n / nk) % 3) as usize];
+                let ctx = ctxs[((i / n / nk / 3) % 3) as usize];
+                format!("run:{k}:{c}:{t}:{ctx}:{}", i % 5)
+            }));
+        }
+        v.push(Stream::new("single-statement-bodies", n * SINGLE_BODY_HEADS.len() as u64, true, move |i| format!("single:{}:{}", i % n, i / n)));
         v.push(Stream::new("random-sequences", tier.pick(20_000, 1_000_000), false, move |i| {
             let mut r = Rng::new(mix(&[seed, 0xC16, i]));
             let len = r.range(2, 12);
@@ -290,6 +363,28 @@ impl Property for C16 {
         v
     }
     fn check(&self, input: &str, obs: &mut Obs) {
+        if let Some(rest) = input.strip_prefix("single:") {
+            let parts: Vec<&str> = rest.split(':').collect();
+            check_single_body(parts[0].parse().unwrap_or(0) % STATEMENTS.len(), parts[1].parse().unwrap_or(0), obs);
+            return;
+        }
+        if let Some(rest) = input.strip_prefix("run:") {
+            let parts: Vec<&str> = rest.split(':').collect();
+            let k: usize = parts[0].parse().unwrap_or(0) % STATEMENTS.len();
+            let count: usize = parts[1].parse().unwrap_or(2);
+            let tail = STATEMENTS.iter().position(|s| s.0 == parts[2]).unwrap_or(0);
+            let ctx: usize = parts[3].parse().unwrap_or(0) % CONTEXTS.len();
+            let sep = ["\n", " ", " // remark on the statement before\n", "\n// comment line directly above\n", " /* between */ "][parts[4].parse::<usize>().unwrap_or(0) % 5];
+            if !clean_context(ctx) {
+                obs.inconclusive("context does not parse cleanly when empty");
+                return;
+            }
+            let mut idxs = vec![k; count];
+            idxs.push(tail);
+            check_sequence(&idxs, ctx, sep, obs);
+            obs.class("long-run");
+            return;
+        }
         if let Some(rest) = input.strip_prefix("seq:") {
             let parts: Vec<&str> = rest.split(':').collect();
             // statements may be given by index or by kind label
